@@ -31,6 +31,7 @@ TRUSTED = [
     "C05 times: create_time() is a float `starttime/CLOCK_TICKS + boot_time`; the model compares the integer starttime ticks. The harness checks on every run that this float map is strictly increasing over the tick range it uses",
     "C05 stat renderer (Spec/C05Stat.lean): transcription of the documented /proc/<pid>/stat layout; the Python renderer of the harness is checked byte-for-byte against it on every stat case",
     "C05 errors: a stat read is gone (no /proc/<pid>, or the directory still listed with its stat file gone) / unreadable (EACCES, injected at psutil's open_binary) / read; `Process(pid)` and the `create_time()` that follows are one look-up; the caller object is built on a readable stat; the ENOENT-then-zombie two-read race of wrap_exceptions (ZombieProcess) is not modelled (C03)",
+    "C05 PID range (Spec/C05Range.lean): every PID the kernel hands out is below PID_MAX_LIMIT = 2^22 (proc(5) pid_max, include/linux/threads.h, 64-bit); sizeof(pid_t) is taken from the interpreter's build configuration (SIZEOF_PID_T) when the limit of the _Py_PARSE_PID conversion is computed",
     "C05 parents() while the table changes: the worlds of each look-up are those the harness recorded at its hooks (construction of _pslinux.Process, _proc.ppid()); inside oneshot() a stat memo filled by another method is handed to the model as the table that method ran on (PStep.withStatMemo)",
 ]
 ASSUMPTIONS = [
@@ -39,7 +40,7 @@ ASSUMPTIONS = [
     "int()/float() of a stat token are modelled for the decimal tokens the kernel writes",
 ]
 MANIFEST = {
-    "level_text": "Machine-checked Lean 4 proofs over a transcription of ppid_map()/children()/parent()/parents()/_raise_if_pid_reused(): for EVERY ppid map and every start-time assignment (forests, self-loops, cycles, unlisted parents, ties) children() is exactly the set of listed processes whose parent link is the caller and that are not older than it, children(recursive=True) is exactly the inductive reachability closure minus the caller, each PID once (C05_children_exact, C05_children_rec_exact, C05_nodup, C05_not_self, C05_no_older), the walk terminates on any graph (C05_terminates: a proved fuel bound; without the `seen` guard divergence is proved), parent()/parents() equal psutil's reading 'named by ppid() unless younger, and the lowest listed PID has no parent' (C05_parent_spec, C05_parents_chain, C05_parents_terminates: a CHARACTERISATION of the code) and equal the LITERAL statement (parentLit/ChainLit: no lowest-PID rule) exactly off the region where the lowest listed PID shows a parent (C05_parent_literal, C05_parents_literal; counterexample C05_lowest_pid_parent_counterexample = known finding C05-lowest-pid-parent), a caller whose incarnation is gone or whose PID was recycled gets NoSuchProcess whatever the object saw before — children() at full strength (C05_dead_caller_NSP, C05_recycled_caller_NSP), parent()/parents() at full strength too since /repo d7107b4 (fixes/C05-parent-root-recycled.diff: the lowest-PID stop of parent() checks the caller's identity before it answers None): fact rootGuarded pinned by the obligation cfg_root_guarded, C05_recycled_caller_NSP_parent_full and C05_dead_caller_NSP_X_parent_full hold for EVERY recycled/dead caller, the lowest listed PID included; what the unguarded stop did (None/[] for a recycled caller that is the lowest listed PID) is kept as a what-if for that configuration (C05_recycled_lowest_pid_counterexample, C05_recycled_lowest_pid_unguarded; former finding C05-recycled-lowest-pid, now a fixed: line whose witness is replayed on every run), and both stat readers recover ppid/starttime for every comm byte string (C05_stat_roundtrip). Richer world (Model/C05Dyn): any set of other processes with an unreadable or vanished stat file is left out and never fails children() (C05_unreadable_left_out[_rec], C05_unreadable_never_returned; false without the hypothesis that readable processes stay readable during the walk: C05_unreadable_mid_walk_counterexample), zombies are processes like any other (a modelling decision recorded as C05_model_state_letter_unread[_parents]; the code's zombie paths are tied by the correspondence only), parents() over ANY sequence of worlds — ancestors exiting, reaped, recycled, re-parented between two parent() calls — is the step-wise chain (C05_parents_dyn_spec), each element the parent of the previous one when looked up, never younger, no PID twice (C05_parents_dyn_links), terminating within |PIDs|+2 iterations (C05_parents_dyn_terminates), ending with NoSuchProcess at an element that is no longer itself (C05_parent_dyn_dead_NSP); inside oneshot() a cached ppid is answered without identity check (model lemma C05_model_oneshot_cache_hit), while a stat memo filled by another method still goes through the identity check (C05_oneshot_statmemo_parent). Round 3: the rich model of parent()/parents() is proved equal to the plain one on constant readable tables for every configuration (C05_static_parent_refines, C05_static_parents_refines; formerly a run-time flag); a recycled caller gets NoSuchProcess whatever is unreadable — the new owner included (C05_dead_caller_NSP_X, C05_recycled_caller_NSP_X[_parent], C05_parents_dyn_dead_NSP); with NO hypothesis on the look-up world a value returned by children() is exact and the only other outcome is AccessDenied(c) for a process c that turned unreadable (C05_children_value_exact, C05_children_outcomes); a value returned by parent() is the right one in any worlds (C05_parent_dyn_sound). Audit round: completeness of parents() while the table changes against the literal chain (C05_parent_dyn_literal, C05_parents_dyn_literal); SEQUENCES of calls on one object (Model/C05Seq): while the incarnation lives no call changes the object, so every single-call theorem holds for the n-th call (C05_seq_object_unchanged, C05_seq_children_exact), flags are only set by a call that saw it dead (C05_seq_flags_sound), a dead object stays dead (C05_seq_dead_stays_dead); the ORDER of children() is unspecified (a set) and characterised (C05_children_order_flat, C05_children_order_docstring: the docstring's order is not the code's). The model is tied to the code by translator facts (the three `<=`, the seen guard, the own-PID drop, the parents() cycle stop, the identity pre-checks incl. the `_gone` test, the lowest-PID stop, rfind/index facts, the except tuple of ppid_map(), POSIX ppid() uncached, create_time() cached; 22 facts, extractors total and independent) feeding the proof obligations cfg_good/scfg_good/xcfg_good/ocfg_good, and by a differential run of the real methods over fake procfs tables, random and exhaustive, incl. histories of several calls on one object and the unsorted order of children().",
+    "level_text": "Machine-checked Lean 4 proofs over a transcription of ppid_map()/children()/parent()/parents()/_raise_if_pid_reused(): for EVERY ppid map and every start-time assignment (forests, self-loops, cycles, unlisted parents, ties) children() is exactly the set of listed processes whose parent link is the caller and that are not older than it, children(recursive=True) is exactly the inductive reachability closure minus the caller, each PID once (C05_children_exact, C05_children_rec_exact, C05_nodup, C05_not_self, C05_no_older), the walk terminates on any graph (C05_terminates: a proved fuel bound; without the `seen` guard divergence is proved), parent()/parents() equal psutil's reading 'named by ppid() unless younger, and the lowest listed PID has no parent' (C05_parent_spec, C05_parents_chain, C05_parents_terminates: a CHARACTERISATION of the code) and equal the LITERAL statement (parentLit/ChainLit: no lowest-PID rule) exactly off the region where the lowest listed PID shows a parent (C05_parent_literal, C05_parents_literal; counterexample C05_lowest_pid_parent_counterexample = known finding C05-lowest-pid-parent), a caller whose incarnation is gone or whose PID was recycled gets NoSuchProcess whatever the object saw before — children() at full strength (C05_dead_caller_NSP, C05_recycled_caller_NSP), parent()/parents() at full strength too since /repo d7107b4 (fixes/C05-parent-root-recycled.diff: the lowest-PID stop of parent() checks the caller's identity before it answers None): fact rootGuarded pinned by the obligation cfg_root_guarded, C05_recycled_caller_NSP_parent_full and C05_dead_caller_NSP_X_parent_full hold for EVERY recycled/dead caller, the lowest listed PID included; what the unguarded stop did (None/[] for a recycled caller that is the lowest listed PID) is kept as a what-if for that configuration (C05_recycled_lowest_pid_counterexample, C05_recycled_lowest_pid_unguarded; former finding C05-recycled-lowest-pid, now a fixed: line whose witness is replayed on every run), and both stat readers recover ppid/starttime for every comm byte string (C05_stat_roundtrip). Richer world (Model/C05Dyn): any set of other processes with an unreadable or vanished stat file is left out and never fails children() (C05_unreadable_left_out[_rec], C05_unreadable_never_returned; false without the hypothesis that readable processes stay readable during the walk: C05_unreadable_mid_walk_counterexample), zombies are processes like any other (a modelling decision recorded as C05_model_state_letter_unread[_parents]; the code's zombie paths are tied by the correspondence only), parents() over ANY sequence of worlds — ancestors exiting, reaped, recycled, re-parented between two parent() calls — is the step-wise chain (C05_parents_dyn_spec), each element the parent of the previous one when looked up, never younger, no PID twice (C05_parents_dyn_links), terminating within |PIDs|+2 iterations (C05_parents_dyn_terminates), ending with NoSuchProcess at an element that is no longer itself (C05_parent_dyn_dead_NSP); inside oneshot() a cached ppid is answered without identity check (model lemma C05_model_oneshot_cache_hit), while a stat memo filled by another method still goes through the identity check (C05_oneshot_statmemo_parent). Round 3: the rich model of parent()/parents() is proved equal to the plain one on constant readable tables for every configuration (C05_static_parent_refines, C05_static_parents_refines; formerly a run-time flag); a recycled caller gets NoSuchProcess whatever is unreadable — the new owner included (C05_dead_caller_NSP_X, C05_recycled_caller_NSP_X[_parent], C05_parents_dyn_dead_NSP); with NO hypothesis on the look-up world a value returned by children() is exact and the only other outcome is AccessDenied(c) for a process c that turned unreadable (C05_children_value_exact, C05_children_outcomes); a value returned by parent() is the right one in any worlds (C05_parent_dyn_sound). Audit round: completeness of parents() while the table changes against the literal chain (C05_parent_dyn_literal, C05_parents_dyn_literal); SEQUENCES of calls on one object (Model/C05Seq): while the incarnation lives no call changes the object, so every single-call theorem holds for the n-th call (C05_seq_object_unchanged, C05_seq_children_exact), flags are only set by a call that saw it dead (C05_seq_flags_sound), a dead object stays dead (C05_seq_dead_stays_dead); the ORDER of children() is unspecified (a set) and characterised (C05_children_order_flat, C05_children_order_docstring: the docstring's order is not the code's). The model is tied to the code by translator facts (the three `<=`, the seen guard, the own-PID drop, the parents() cycle stop, the identity pre-checks incl. the `_gone` test, the lowest-PID stop, rfind/index facts, the except tuple of ppid_map(), POSIX ppid() uncached, create_time() cached, the range gate of Process(pid); 25 facts, extractors total and independent) feeding the proof obligations cfg_good/scfg_good/xcfg_good/ocfg_good/rcfg_good, and by a differential run of the real methods over fake procfs tables, random and exhaustive, incl. histories of several calls on one object and the unsorted order of children(). Seeded round 5 (PID magnitude): every look-up through a new Process object passes the range gate of Process(pid) (Model/C05Range: Process._init -> cext.check_pid_range -> OverflowError -> NoSuchProcess; facts checkPidRangeLimit / checkPidRangeShapeKnown read off psutil/_psutil_common.c for the Linux build, initRangeOnlyC off Process._init; obligation rcfg_good: nothing below PID_MAX_LIMIT = 2^22 is refused and the translator has read every use of `pid`); under it the gated walkers are the walkers above on every table whose PIDs lie anywhere in the kernel's range (C05_range_gate_transparent, C05_range_children_refines, C05_range_parents_refines), so the clauses hold for PIDs of any magnitude (C05_range_listed_opens, C05_range_children_exact, C05_range_children_rec_exact, C05_range_parent_spec, C05_range_parents_chain); any smaller limit refuses a listed process (C05_range_limit_necessary; C05_range_small_limit_counterexample = seeded C05-7: limit 262144 drops child 300000 and its subtree, parent() of its child is None). The driver's model runs through the gate with the extracted limit, the specification never looks at a PID's magnitude; the correspondence relabels cases of every other family into the whole range [1, 2^22) in six ways and sweeps 57 boundary PIDs through the five roles of a tree.",
     "level_note": "Trusted: Lean kernel + {propext, Classical.choice, Quot.sound}; the translator; the correspondence harness; float create_time modelled by integer ticks (monotonicity checked at run time); atomic file reads; Process(pid)+create_time() as one look-up. The specification is silent (model-only comparison) about WHICH exception an unreadable stat file on the path of parent()/parents() produces, about a caller whose own stat file is unreadable while it is still the same incarnation (a recycled unreadable caller must get NoSuchProcess), and on a oneshot ppid() cache hit; for processes turning unreadable during the walk of children() the specification is the exact value or AccessDenied(that process). The specification of parent()/parents() is the LITERAL statement; inside the region of the known finding C05-lowest-pid-parent (the lowest listed PID shows a parent) the check accepts exactly psutil's reading and still requires equality with the Lean model; the region of the former finding C05-recycled-lowest-pid (dead caller that is the lowest listed PID; fixed in /repo d7107b4) is no longer tolerated: an implementation that answers None/[] there is a violation with a concrete replay. The order of children()'s list is compared with the model only (unspecified by the statement). The zombie paths of the code (wrap_exceptions/_raise_if_zombie) and @memoize_when_activated are not in the model (correspondence only).",
     "technique": "Lean 4 proof (DFS invariant + fuel bound, induction over the reachability relation, case analysis) + translator-fed proof obligations + differential correspondence on fake procfs with exhaustive small tables",
     "design_ref": "DESIGN.md §5 C05",
@@ -367,7 +368,9 @@ class Impl:
                 p = ps.Process(case["pid"])
         except Exception as e:
             self.plat.Process = self.RealProc
-            return {"kind": "harness", "what": "Process(pid) failed on mk", "exc": type(e).__name__}, None, extra
+            # the object cannot be built although its PID is listed in `mk`: an observable of its own (the range gate of
+            # Process(pid), Model/C05Range.lean) — never a harness error
+            return dict(self.exc(e), at="construct"), None, extra
         if case.get("pids_call") == "mk":
             self._pids()
         running = None
@@ -870,7 +873,188 @@ def table_features(case):
         f.add("call_sequence")
     if len(rows) > 12:
         f.add("large")
+    if any(r[0] >= 32768 for r in rows):
+        f.add("pid_above_default_pid_max")
     return f
+
+
+# ------------------------------------------------------------------------------ PID magnitude (seeded round 5)
+# The kernel hands out PIDs anywhere in [1, PID_MAX_LIMIT) (Spec/C05Range.lean; systemd raises pid_max to the limit on
+# 64-bit machines); the statement quantifies over every process table, so nothing on the path from a listed PID to a
+# Process object — Process._init(), cext.check_pid_range(), the platform object, the /proc/<pid>/stat readers, pids(),
+# ppid_map() — may depend on how large the PID is. Every family below is a RELABELLING of cases of the other families
+# (all their table shapes and histories) with PIDs drawn from the whole range, plus a sweep of the boundary values.
+
+PID_MAX_LIMIT = 4194304
+
+
+def boundary_pids():
+    b = set()
+    for k in range(7, 23):
+        b |= {2 ** k - 1, 2 ** k, 2 ** k + 1}
+    for k in range(3, 7):
+        b |= {10 ** k - 1, 10 ** k}
+    b |= {32767, 32768, 4194302, 4194303, 3999999, 2500000}
+    return sorted(x for x in b if 1 < x < PID_MAX_LIMIT)
+
+
+BOUNDARY_PIDS = boundary_pids()
+
+
+def big_pid(rng, lo_bits=1):
+    """log-uniform over the PID range: every magnitude class (number of bits) is equally likely"""
+    k = rng.randrange(lo_bits, 23)
+    return rng.randrange(max(1, 2 ** (k - 1)), 2 ** k)
+
+
+def case_pids(case):
+    """every PID that occurs in a case as a process or as a parent link (0 = "no parent" stays what it is)"""
+    out = []
+
+    def rows(t):
+        for r in t or []:
+            out.extend(r[:2])
+    for k in ("mk", "mid", "t0", "t1", "iter", "statmemo"):
+        if isinstance(case.get(k), list):
+            rows(case[k])
+    if isinstance(case.get("oneshot"), list):
+        rows(case["oneshot"])
+    for _, pt in case.get("pre") or []:
+        rows(pt)
+    for e in case.get("events") or []:
+        out.append(e[1])
+        if e[2] is not None:
+            out.extend(e[2][:2])
+    out.append(case["pid"])
+    return sorted(set(out) - {0})
+
+
+def make_sigma(rng, pids, mode):
+    """an injective relabelling of `pids` into [1, PID_MAX_LIMIT)"""
+    used, sig = set(), {0: 0}
+    for p in pids:
+        for _ in range(1000):
+            if mode == "all_large":
+                q = big_pid(rng, 16)
+            elif mode == "mixed":
+                q = p if rng.random() < 0.5 else big_pid(rng, 8)
+            elif mode == "boundary":
+                q = rng.choice(BOUNDARY_PIDS) if rng.random() < 0.8 else p
+            elif mode == "top":
+                q = PID_MAX_LIMIT - 1 - rng.randrange(0, 4096)
+            elif mode in ("any", "shift"):           # shift: fallback when the shifted table would leave the range
+                q = big_pid(rng)
+            else:
+                raise ValueError(mode)
+            if q not in used and 0 < q < PID_MAX_LIMIT:
+                break
+        else:
+            q = max(used | {0}) + 1
+        used.add(q)
+        sig[p] = q
+    if mode == "shift":
+        off = rng.choice([2 ** k for k in range(10, 22)] + [PID_MAX_LIMIT - 1 - max(pids + [1])])
+        if max(pids + [1]) + off < PID_MAX_LIMIT:
+            sig = {0: 0}
+            sig.update({p: p + off for p in pids})
+    return sig
+
+
+SIGMA_MODES = ["all_large", "mixed", "boundary", "top", "any", "shift"]
+
+
+def relabel_case(case, sig):
+    """the same case with every PID p replaced by sig[p] (tables, histories, events, caller)"""
+    def row(r):
+        return [sig[r[0]], sig[r[1]]] + list(r[2:])
+
+    def rows(t):
+        return None if t is None else [row(r) for r in t]
+    c = dict(case)
+    for k in ("mk", "mid", "t0", "t1", "iter", "statmemo"):
+        if isinstance(case.get(k), list):
+            c[k] = rows(case[k])
+    if isinstance(case.get("oneshot"), list):
+        c["oneshot"] = rows(case["oneshot"])
+    if case.get("pre"):
+        c["pre"] = [[pc, rows(pt)] for pc, pt in case["pre"]]
+    if case.get("events"):
+        c["events"] = [[k, sig[p_], (None if r is None else row(r))] for k, p_, r in case["events"]]
+    c["pid"] = sig[case["pid"]]
+    if case.get("op") == "tree":
+        if c.get("pre"):
+            c["lowest0"] = calc_lowest0(c)
+        c["lowest"] = calc_lowest(c)
+    return c
+
+
+def magnitude_sweep():
+    """SMALL EXHAUSTIVE part: every boundary PID b (2^k−1, 2^k, 2^k+1 for k = 7…22, 10^k−1, 10^k, 32767/32768, the top of
+    the range) in every ROLE of a fixed five-process tree × the calls that look it up:
+      child of the caller, inner node (its subtree hangs below it), parent, grandparent, the caller itself."""
+    cases = []
+    for b in BOUNDARY_PIDS:
+        a, k1, g = (1000, 1001, 1500) if b not in (1000, 1001, 1500) else (2000, 2001, 2500)
+        t = [[1, 0, 1], [a, 1, 10], [k1, a, 20], [b, a, 23], [g, b, 30]]
+        for call in ("children", "children_rec"):
+            cases.append(mk_case(call, a, t, family="magnitude/sweep-child"))          # b among the children; g below b
+        for call in ("parent", "parents"):
+            cases.append(mk_case(call, g, t, family="magnitude/sweep-parent"))         # b is the parent / on the chain
+        for call in CALLS:
+            cases.append(mk_case(call, b, t, family="magnitude/sweep-caller"))         # b is the caller
+        cases.append(mk_dyn("children_rec", a, t, family="magnitude/sweep-child"))
+        cases.append(mk_dyn("parents", g, [r + ["Z" if r[0] == b else "R"] for r in t], family="magnitude/sweep-parent"))
+    return cases, [c["family"] for c in cases]
+
+
+def gen_magnitude_cases(rng, n):
+    """RANDOM + STRUCTURED part: cases of the other families (every table family × history family, the richer world
+    included), relabelled into the whole PID range in six ways (all large, mixed small/large, boundary values, the top
+    4096 PIDs, log-uniform, order-preserving shift)."""
+    cases, tags = [], []
+    # structured: the table of seeded change C05-7's demonstration (start times scaled to the tick range)
+    demo = [[1, 0, 10], [1000, 1, 1000], [1001, 1000, 2000], [262143, 1000, 2100], [262144, 1000, 2200], [300000, 1000, 2300],
+            [4194303, 1000, 2400], [1500, 300000, 3000], [1501, 1500, 3100], [1600, 4194303, 3200], [2000, 1, 500]]
+    for call in CALLS:
+        for pid in (1000, 1500, 1501, 1600, 300000, 4194303):
+            cases.append(mk_case(call, pid, demo, family="magnitude/corpus"))
+            tags.append("magnitude/corpus")
+    base, btags = [], []
+    k = 0
+    while len(base) < n:
+        tf = TABLE_FAMILIES[k % len(TABLE_FAMILIES)]
+        hf = HIST_FAMILIES[(k // len(TABLE_FAMILIES) + k) % len(HIST_FAMILIES)]
+        k += 1
+        if tf == "large":
+            tf = "forest"
+        rows = gen_table(rng, tf)
+        pid = pick_callers(rng, rows, 1)[0]
+        for hv in history_variants(rng, rows, pid, hf)[:1]:
+            (mk, mid, t0, t1, pc, tag) = hv[:6]
+            it = hv[6] if len(hv) > 6 else None
+            pre = hv[7] if len(hv) > 7 else None
+            for call in CALLS:
+                if t1 is not None and call in ("parent", "parents"):
+                    continue
+                evs, t1_ = ([list(e) for e in t1[1]], None) if isinstance(t1, tuple) else (None, t1)
+                base.append(mk_case(call, pid, t0, mk=mk, mid=mid, t1=t1_, pids_call=pc, family="", events=evs, it=it, pre=pre))
+                btags.append(tag)
+    dc, dt = gen_dyn_cases(rng, max(11, n // 12))
+    base += dc
+    btags += [t.split("/", 1)[1] for t in dt]
+    for i, (c, tag) in enumerate(zip(base, btags)):
+        mode = SIGMA_MODES[(i // 4) % len(SIGMA_MODES)]         # the calls of one table share their relabelling mode
+        sig = make_sigma(rng, case_pids(c), mode)
+        r = relabel_case(c, sig)
+        r["family"] = "magnitude/%s" % mode
+        cases.append(r)
+        tags.append("magnitude/%s" % mode)
+    return cases, tags
+
+
+def pid_bits_bucket(case):
+    m = max(case_pids(case) + [1])
+    return "<2^7" if m < 128 else "2^7..2^15" if m < 32768 else "2^15..2^18" if m < 262144 else "2^18..2^22"
 
 
 # ------------------------------------------------------------------------------ correspondence
@@ -884,9 +1068,15 @@ def judge(case, obs, running, extra, m, res, source, record=True):
         if record:
             res.disagree("model", inp, obs, mo, sp, note="driver: specification saturation did not close (harness/spec bug)")
         return "model"
-    if obs.get("kind") == "harness":
+    if obs.get("at") == "construct" or mo.get("at") == "construct":
+        # Process(pid) for a PID listed in `mk`: the specification says it opens (every listed process is one the tree
+        # methods can be asked about), so a refusal is a failing input whatever the model says
+        if obs.get("at") == "construct":
+            if record:
+                res.disagree("spec", inp, obs, mo, sp, note="Process(%d) cannot be built although the PID is listed (range gate of Process(pid))" % case["pid"])
+            return "spec"
         if record:
-            res.disagree("model", inp, obs, mo, sp, note="harness could not build the Process object")
+            res.disagree("model", inp, obs, mo, sp, note="the model's Process(pid) refuses the caller's PID, the implementation builds it")
         return "model"
     call = case["call"]
     if extra.get("lowest") != case["lowest"]:
@@ -1010,8 +1200,10 @@ def judge_dyn(case, obs, extra, m, res, source, record=True):
         return kind
     if not m.get("closed", False):
         return dis("model", obs, "driver: specification saturation did not close (harness/spec bug)")
-    if obs.get("kind") == "harness":
-        return dis("model", obs, "harness could not build the Process object")
+    if obs.get("at") == "construct":
+        return dis("spec", obs, "Process(%d) cannot be built although the PID is listed (range gate of Process(pid); richer world)" % case["pid"])
+    if (mo or {}).get("at") == "construct":
+        return dis("model", obs, "the model's Process(pid) refuses the caller's PID, the implementation builds it")
     if case.get("statmemo_via") and extra.get("statmemo") != "filled":
         return dis("model", {"statmemo": extra.get("statmemo")}, "harness: the stat memo could not be filled inside oneshot()")
     if extra.get("older"):
@@ -1392,7 +1584,7 @@ def stat_cases(rng, n):
             lines.append(bytes(rng.randrange(1, 256) for _ in range(ln)))
     out = []
     for i, comm in enumerate(lines):
-        pid = rng.randrange(1, 30000)
+        pid = rng.choice([rng.randrange(1, 30000), big_pid(rng, 15), rng.choice(BOUNDARY_PIDS)])     # Process(pid) for PIDs of the whole range
         ppid = rng.choice([0, 1, 2, rng.randrange(0, 4194304)])
         start = rng.randrange(0, MAX_TICKS + 1)
         state = rng.choice([b"S", b"R", b"Z", b"D", b"I", b"T"])
@@ -1413,6 +1605,8 @@ def correspond(ctx, res):
                     "richer world: zombie rows, unreadable stat files (static, the caller's own, appearing during the walk), "
                     "kernel events between the look-ups of parent()/parents(), calls inside oneshot() (fresh / after ppid() on an "
                     "earlier table), objects yielded by process_iter(); plus "
+                    "PID magnitude: cases of all these families relabelled into the whole PID range [1, 2^22) (all large / mixed / boundary "
+                    "values / top of the range / log-uniform / order-preserving shift) and a sweep of the boundary PIDs through every role; "
                     "an exhaustive sweep of small tables and of short comm strings; non-trivial = the table has a cycle, "
                     "self-loop, tie, younger parent, unlisted parent, a history or a vanishing process, or the caller has "
                     "children; distinct = distinct (tables, caller, call)")
@@ -1496,7 +1690,14 @@ def correspond(ctx, res):
                         cases.append(mk_case(call, pid, t0, mk=mk, mid=mid, t1=t1_, pids_call=pc,
                                              family=tf + "/" + tag, events=evs, it=it, pre=pre))
                         tags.append(tf + "/" + tag)
+        # ---- PID magnitude: the other families relabelled into the whole PID range [1, PID_MAX_LIMIT) + boundary sweep
+        mc, mt = gen_magnitude_cases(ctx.rng, ctx.n(1000, 12000))
+        cases += mc
+        tags += mt
         n_rand = len(cases)
+        mc, mt = magnitude_sweep()
+        cases += mc
+        tags += mt
         # ---- exhaustive small tables
         kmax = 3 if ctx.tier == "quick" else 4
         ex_desc = []
@@ -1580,6 +1781,8 @@ def correspond(ctx, res):
                         cases.append(mk_case(call, pid, rows, it=old, family="exhaustive-iter"))
                         tags.append("exhaustive-iter")
         ex_desc.append("%d pairs (table cached by process_iter(), table seen by the call) of 2 processes" % cnt)
+        ex_desc.append("%d boundary PIDs of the range [1, 2^22) (2^k-1, 2^k, 2^k+1 for k = 7..22, 10^k-1, 10^k, 32767/32768, 4194302/4194303) "
+                       "x the five roles child / inner node / parent / grandparent / caller of a five-process tree" % len(BOUNDARY_PIDS))
         # ---- run
         CH = 3000
         workers = 1 if ctx.tier == "quick" else max(1, min(16, (os.cpu_count() or 2)))
@@ -1599,6 +1802,7 @@ def correspond(ctx, res):
                 for f in feats:
                     res.count("feature:" + f)
                 res.count("table_size:%s" % ("1-3" if len(c["t0"]) <= 3 else "4-8" if len(c["t0"]) <= 8 else "9-40"))
+                res.count("pid_magnitude:max_pid_%s" % pid_bits_bucket(c))
                 res.case((c["call"], c["pid"], c["mk"], c["mid"], c["t0"], c["t1"], c["lowest"], c.get("events"), c.get("iter"), c.get("oneshot"), c.get("statmemo"), c.get("pre")), nontrivial=bool(feats),
                          sample={"family": fam, "case": strip(c)} if (a + j) in (0, 1, 30, 41, 77) else None)
         # ---- as_dict() is not a way to reach the tree methods (if it becomes one, it needs its own family)
